@@ -3,6 +3,7 @@
    run (typed translation: a str compared with an Enum member is false); the hand-off condition of
    execute_write_reqs is `gen_write_phase1_continue`, translated from scheduler.py. *)
 From TS Require Import model.Base model.Dtype gen.DtypeGen gen.SchedGen model.AsyncCapture proofs.AsyncCaptureProofs.
+From TS Require Import model.Dispatch gen.DispatchGen proofs.DispatchInst.
 
 (* The model's assumption "everything is staged before take/async_take returns", tied to the source: execute_write_reqs
    leaves its loop only when gen_write_phase1_continue is false, i.e. when no request is waiting for staging and no
@@ -76,3 +77,13 @@ Example C09_example_run :
   (* the same steps on the legacy staging: the first write is fine, the re-write of buffer 0 after the mutation is not *)
   run (stage_all legacy_decide ser_id true ex_mem ex_leaves) ex_mem ex_steps <> async_run ser_id ex_mem ex_leaves ex_steps.
 Proof. vm_compute. repeat split; try reflexivity. discriminate. Qed.
+
+(* The theorems above stage with is_async_snapshot = true.  Tied to the source: the flag is the constant True in
+   Snapshot.async_take (False in take) and every hop down to TensorBufferStager (_take_impl -> io_preparer.prepare_write ->
+   the chunked / sharded / DTensor preparers -> TensorIOPreparer.prepare_write -> TensorBufferStager.__init__) passes its
+   own, never rebound, parameter on.  g_async_flag_hops is regenerated on every run by translator/gen_dispatch.py (the hops
+   inside io_preparer.prepare_write are checked by the same translator, which fails closed). *)
+Theorem C09_generated_async_flag_reaches_every_stager :
+  forallb (fun b : bool => b) g_async_flag_hops = true.
+Proof. exact async_flag_reaches_stager. Qed.
+Print Assumptions C09_generated_async_flag_reaches_every_stager.
